@@ -36,12 +36,23 @@ Fixpoint size (a : ast) : nat :=
         | NCase c b | NWhile c b => size c + size b
         | NFor e c b => size e + size c + size b
         | NImport f i al => so f + sl i + sl al
+        | NClass _ _ args ps b => sl args + sl ps + so b
+        | NParent _ _ args => sl args
+        | NTypeDef _ _ _ b _ => so b
+        | NDict es =>
+            (fix sp (l : list (ast * ast)) : nat :=
+               match l with [] => 0 | kv :: r => size (fst kv) + size (snd kv) + sp r end) es
+        | NListBuilder i cs | NSetBuilder i cs => size i + sl cs
+        | NDictBuilder f t cs => size f + size t + sl cs
+        | NWith r al b => size r + so al + size b
         | _ => 0
         end
   end.
 
 Fixpoint sizes (l : list ast) : nat := match l with [] => 0 | x :: r => size x + sizes r end.
 Definition sizeo (o : option ast) : nat := match o with Some x => size x | None => 0 end.
+Fixpoint sizesp (l : list (ast * ast)) : nat :=
+  match l with [] => 0 | kv :: r => size (fst kv) + size (snd kv) + sizesp r end.
 
 Lemma size_unfold ty n :
   size (A ty n) =
@@ -65,9 +76,21 @@ Lemma size_unfold ty n :
     | NCase c b | NWhile c b => size c + size b
     | NFor e c b => size e + size c + size b
     | NImport f i al => sizeo f + sizes i + sizes al
+    | NClass _ _ args ps b => sizes args + sizes ps + sizeo b
+    | NParent _ _ args => sizes args
+    | NTypeDef _ _ _ b _ => sizeo b
+    | NDict es => sizesp es
+    | NListBuilder i cs | NSetBuilder i cs => size i + sizes cs
+    | NDictBuilder f t cs => size f + size t + sizes cs
+    | NWith r al b => size r + sizeo al + size b
     | _ => 0
     end.
 Proof. destruct n; reflexivity. Qed.
+
+Lemma sizesp_in kv l : In kv l -> size (fst kv) + size (snd kv) <= sizesp l.
+Proof.
+  induction l as [|y l IH]; [easy|]. intros [-> | H]; cbn [sizesp]; [lia|]. specialize (IH H). lia.
+Qed.
 
 Lemma sizes_in x l : In x l -> size x <= sizes l.
 Proof.
@@ -125,7 +148,7 @@ Definition erase_opt (o : option core) : option core :=
 Definition nontyping {V} (m : list (string * V)) : list (string * V) :=
   filter (fun kv => negb (String.eqb (fst kv) "typing")) m.
 Definition irel (i1 i0 : imports) : Prop :=
-  imps i1 = imps i0 /\ nontyping (from_imps i1) = nontyping (from_imps i0).
+  imps i1 = imps i0 /\ other_from i1 = other_from i0.
 
 Definition crel (c1 c0 : core) : Prop := erase c1 = erase c0.
 
@@ -137,7 +160,7 @@ Definition arel (a1 a0 : option (core * option nm)) : Prop :=
   | _, _ => False
   end.
 Definition srel (s1 s0 : state) : Prop :=
-  interface s1 = false /\ interface s0 = false /\ expand_ty s1 = expand_ty s0 /\ def_as_fun_arg s1 = def_as_fun_arg s0
+  interface s1 = interface s0 /\ True /\ expand_ty s1 = expand_ty s0 /\ def_as_fun_arg s1 = def_as_fun_arg s0
   /\ tup_lit s1 = tup_lit s0 /\ last_ret s1 = last_ret s0 /\ remove_ret s1 = remove_ret s0
   /\ arel (assign_to s1) (assign_to s0).
 
@@ -178,11 +201,16 @@ Proof.
 Qed.
 
 Lemma add_typing_irel_l name i1 i0 : irel i1 i0 -> irel (add_from_import "typing" name i1) i0.
+Proof. intros [H1 H2]. unfold add_from_import. cbn. split; assumption. Qed.
+
+Lemma add_from_irel from name i1 i0 : irel i1 i0 -> irel (add_from_import from name i1) (add_from_import from name i0).
 Proof.
-  intros [H1 H2]. unfold add_from_import.
-  destruct (map_get "typing" (from_imps i1)) as [[names alias]|]; split; cbn [imps from_imps];
-    rewrite ?nontyping_insert_typing; assumption.
+  intros [H1 H2]. unfold add_from_import. destruct (String.eqb from "typing"); cbn [imps other_from]; split;
+    try assumption. rewrite H2. reflexivity.
 Qed.
+
+Lemma from_imps_nontyping i : nontyping (from_imps i) = nontyping (other_from i).
+Proof. unfold from_imps. destruct (typing_imps i); [apply nontyping_insert_typing | reflexivity]. Qed.
 
 Lemma irel_refl i : irel i i. Proof. split; reflexivity. Qed.
 Lemma irel_sym i j : irel i j -> irel j i. Proof. intros [H1 H2]. split; symmetry; assumption. Qed.
@@ -715,7 +743,7 @@ Proof. intros H i1 i0 Hi. cbn. split; [exact I | apply H, Hi]. Qed.
 
 Lemma add_import_irel name i1 i0 : irel i1 i0 -> irel (add_import name i1) (add_import name i0).
 Proof.
-  intros [H1 H2]. unfold add_import. rewrite H1. destruct (existsb _ (imps i0)); split; cbn [imps from_imps]; congruence.
+  intros [H1 H2]. unfold add_import. rewrite H1. destruct (existsb _ (imps i0)); split; cbn [imps other_from]; congruence.
 Qed.
 
 
@@ -733,6 +761,10 @@ Proof. unfold srel. cbn. intuition. Qed.
 Lemma srel_remove_ret s1 s0 b : srel s1 s0 -> srel (with_remove_ret s1 b) (with_remove_ret s0 b).
 Proof. unfold srel. cbn. intuition. Qed.
 Lemma srel_assign s1 s0 a1 a0 : srel s1 s0 -> arel a1 a0 -> srel (with_assign s1 a1) (with_assign s0 a0).
+Proof. unfold srel. cbn. intuition. Qed.
+Lemma srel_interface s1 s0 b : srel s1 s0 -> srel (with_interface s1 b) (with_interface s0 b).
+Proof. unfold srel. cbn. intuition. Qed.
+Lemma srel_def_as_fun_arg s1 s0 b : srel s1 s0 -> srel (with_def_as_fun_arg s1 b) (with_def_as_fun_arg s0 b).
 Proof. unfold srel. cbn. intuition. Qed.
 Lemma srel_assign_none s1 s0 : srel s1 s0 -> srel (with_assign s1 None) (with_assign s0 None).
 Proof. intros H. apply srel_assign; [exact H | exact I]. Qed.
@@ -766,3 +798,218 @@ Ltac crel_solve :=
   unfold crel, orel, erase_opt in *; cbn [erase];
   repeat match goal with H : Forall2 crel _ _ |- _ => apply map_erase_F2 in H end;
   congruence.
+
+(** ** Class assembly commutes with erasure *)
+
+Definition eentry (e : entry) : entry := (erase (fst e), (fst (snd e), erase (snd (snd e)))).
+Definition evalue (v : (nat * nat) * core) : (nat * nat) * core := (fst v, erase (snd v)).
+
+Lemma key_eqb_erase a b : key_eqb (erase a) (erase b) = key_eqb a b.
+Proof. destruct a; try reflexivity. destruct b; reflexivity. Qed.
+Lemma shallow_eqb_erase a b : core_eqb_shallow (erase a) (erase b) = core_eqb_shallow a b.
+Proof. destruct a; try reflexivity. destruct b; reflexivity. Qed.
+
+Lemma stmt_entry_erase i s : stmt_entry i (erase s) = eentry (stmt_entry i s).
+Proof. destruct s; reflexivity. Qed.
+
+Lemma hm_insert_erase k v m :
+  hm_insert (erase k) (evalue v) (map eentry m) = map eentry (hm_insert k v m).
+Proof.
+  induction m as [|[k' v'] m IH]; [reflexivity|]. cbn [map hm_insert eentry fst snd].
+  rewrite key_eqb_erase. destruct (key_eqb k k'); [reflexivity|]. cbn [map]. rewrite IH. reflexivity.
+Qed.
+
+Lemma hm_get_erase k m :
+  hm_get (erase k) (map eentry m) = option_map evalue (hm_get k m).
+Proof.
+  induction m as [|[k' v'] m IH]; [reflexivity|]. cbn [map hm_get eentry fst snd].
+  rewrite key_eqb_erase. destruct (key_eqb k k'); [reflexivity | exact IH].
+Qed.
+
+Lemma body_entries_erase stmts : forall i m,
+  body_entries i (map erase stmts) (map eentry m) = map eentry (body_entries i stmts m).
+Proof.
+  induction stmts as [|s r IH]; intros i m; [reflexivity|]. cbn [map body_entries].
+  rewrite stmt_entry_erase. destruct (stmt_entry i s) as [k v]. unfold eentry at 1. cbn [fst snd].
+  change (fst v, erase (snd v)) with (evalue v). rewrite hm_insert_erase. apply IH.
+Qed.
+
+Lemma insert_by_pos_erase e l :
+  insert_by_pos (evalue e) (map evalue l) = map evalue (insert_by_pos e l).
+Proof.
+  induction l as [|x l IH]; [reflexivity|]. cbn [map insert_by_pos evalue fst].
+  destruct (pos_ltb (fst e) (fst x)); [reflexivity|]. cbn [map]. rewrite <- IH. reflexivity.
+Qed.
+Lemma sort_by_pos_erase l : sort_by_pos (map evalue l) = map evalue (sort_by_pos l).
+Proof.
+  induction l as [|x l IH]; [reflexivity|]. unfold sort_by_pos in *. cbn [map fold_right].
+  rewrite IH. apply insert_by_pos_erase.
+Qed.
+
+Lemma parent_init_erase p :
+  parent_init (erase p) = (erase (fst (parent_init p)), map erase (snd (parent_init p))).
+Proof.
+  destruct p; try reflexivity.
+  match goal with |- context [FunctionCall ?f _] => destruct f; reflexivity end.
+Qed.
+
+Lemma parent_name_erase p : parent_name (erase p) = erase_opt (parent_name p).
+Proof.
+  destruct p; try reflexivity.
+  match goal with |- context [FunctionCall ?f _] => destruct f; reflexivity end.
+Qed.
+
+Lemma flat_map_vars_erase args :
+  flat_map (fun a => match a with FunArg _ var _ _ => [var] | _ => [] end) (map erase args)
+  = map erase (flat_map (fun a => match a with FunArg _ var _ _ => [var] | _ => [] end) args).
+Proof.
+  induction args as [|a r IH]; [reflexivity|]. cbn [map flat_map]. rewrite IH, map_app. f_equal.
+  destruct a; reflexivity.
+Qed.
+
+Lemma existsb_shallow_erase v pa :
+  existsb (core_eqb_shallow (erase v)) (map erase pa) = existsb (core_eqb_shallow v) pa.
+Proof.
+  induction pa as [|x pa IH]; [reflexivity|]. cbn [map existsb]. rewrite shallow_eqb_erase, IH. reflexivity.
+Qed.
+
+Lemma existsb2_shallow_erase v pas :
+  existsb (fun pa => existsb (core_eqb_shallow (erase v)) pa) (map (map erase) pas)
+  = existsb (fun pa => existsb (core_eqb_shallow v) pa) pas.
+Proof.
+  induction pas as [|pa pas IHp]; [reflexivity|]. cbn [map existsb]. rewrite existsb_shallow_erase, IHp. reflexivity.
+Qed.
+
+Lemma filter_fresh_erase vars pas :
+  filter (fun v => negb (existsb (fun pa => existsb (core_eqb_shallow v) pa) (map (map erase) pas))) (map erase vars)
+  = map erase (filter (fun v => negb (existsb (fun pa => existsb (core_eqb_shallow v) pa) pas)) vars).
+Proof.
+  induction vars as [|v r IH]; [reflexivity|]. cbn [map filter]. rewrite existsb2_shallow_erase.
+  destruct (existsb _ pas); cbn [negb]; [exact IH|]. cbn [map]. rewrite IH. reflexivity.
+Qed.
+
+Lemma block_stmts_erase b : block_stmts (erase b) = map erase (block_stmts b).
+Proof. destruct b; reflexivity. Qed.
+
+Lemma class_init_erase old args ps :
+  class_init (erase_opt old) (map erase args) (map erase ps) = erase_opt (class_init old args ps).
+Proof.
+  unfold class_init.
+  assert (Hpis : map parent_init (map erase ps)
+                 = map (fun p => (erase (fst p), map erase (snd p))) (map parent_init ps)).
+  { rewrite !map_map. apply map_ext. intros p. apply parent_init_erase. }
+  rewrite Hpis. rewrite !map_map. cbn [fst snd].
+  set (pinits := map (fun x => fst (parent_init x)) ps).
+  set (pargs := map (fun x => snd (parent_init x)) ps).
+  change (map (fun x => erase (fst (parent_init x))) ps) with (map (fun x => erase (fst (parent_init x))) ps).
+  assert (E1 : map (fun x => erase (fst (parent_init x))) ps = map erase pinits)
+    by (subst pinits; rewrite map_map; reflexivity).
+  assert (E2 : map (fun x => map erase (snd (parent_init x))) ps = map (map erase) pargs)
+    by (subst pargs; rewrite map_map; reflexivity).
+  rewrite E1, E2. rewrite flat_map_vars_erase, filter_fresh_erase.
+  set (fresh := filter _ (flat_map _ args)).
+  assert (Hassign : map (fun v => Assign (PropertyCall (Id n_self_) v) v OpAssign) (map erase fresh)
+                    = map erase (map (fun v => Assign (PropertyCall (Id n_self_) v) v OpAssign) fresh))
+    by (rewrite !map_map; reflexivity).
+  rewrite Hassign.
+  assert (Hfin : forall a sts,
+     (let first_is_self := match map erase a with
+                           | FunArg _ (Id lit) _ _ :: _ => String.eqb lit n_self_ | _ => false end in
+      let a' := if first_is_self then map erase a else Id n_self_ :: map erase a in
+      match map erase sts with [] => None | _ => Some (FunDef [] n_init a' None (Block (map erase sts))) end)
+     = erase_opt
+        (let first_is_self := match a with
+                              | FunArg _ (Id lit) _ _ :: _ => String.eqb lit n_self_ | _ => false end in
+         let a' := if first_is_self then a else Id n_self_ :: a in
+         match sts with [] => None | _ => Some (FunDef [] n_init a' None (Block sts)) end)).
+  { intros a sts. cbv zeta.
+    assert (Hs : match map erase a with FunArg _ (Id lit) _ _ :: _ => String.eqb lit n_self_ | _ => false end
+                 = match a with FunArg _ (Id lit) _ _ :: _ => String.eqb lit n_self_ | _ => false end).
+    { destruct a as [|x r]; [reflexivity|]. destruct x; try reflexivity. cbn [map erase].
+      match goal with |- context [match erase ?v with _ => _ end] => destruct v; reflexivity end. }
+    rewrite Hs. destruct sts as [|s0 r0]; [reflexivity|]. cbn [map erase_opt erase].
+    destruct (match a with FunArg _ (Id lit) _ _ :: _ => String.eqb lit n_self_ | _ => false end); reflexivity. }
+  destruct old as [o|]; cbn [erase_opt].
+  - destruct o; cbn [erase];
+      try (rewrite <- (map_app erase); apply (Hfin [] _)).
+    (* FunDef *)
+    rewrite block_stmts_erase. rewrite <- !(map_app erase). apply Hfin.
+  - rewrite <- (map_app erase). apply Hfin.
+Qed.
+
+Definition init_pos (m : list entry) : nat * nat :=
+  fold_right (fun e acc =>
+                match snd (snd e) with
+                | VarDef _ _ _ => let p := (S (fst (fst (snd e))), 1) in if pos_ltb acc p then p else acc
+                | _ => acc
+                end) (0, 1) m.
+
+Lemma init_pos_erase m : init_pos (map eentry m) = init_pos m.
+Proof.
+  induction m as [|[k [p c]] m IH]; [reflexivity|]. unfold init_pos in *. cbn [map fold_right eentry fst snd].
+  rewrite IH. destruct c; reflexivity.
+Qed.
+
+Lemma existsb_none_erase (l : list (option core)) :
+  existsb (fun o => match o with None => true | Some _ => false end) (map erase_opt l)
+  = existsb (fun o => match o with None => true | Some _ => false end) l.
+Proof. induction l as [|o l IH]; [reflexivity|]. cbn [map existsb]. rewrite IH. destruct o; reflexivity. Qed.
+Lemma flat_some_erase (l : list (option core)) :
+  flat_map (fun o => match o with Some x => [x] | None => [] end) (map erase_opt l)
+  = map erase (flat_map (fun o => match o with Some x => [x] | None => [] end) l).
+Proof.
+  induction l as [|o l IH]; [reflexivity|]. cbn [map flat_map]. rewrite IH, map_app. destruct o; reflexivity.
+Qed.
+
+Definition epair (x : list core * list core) : list core * list core := (map erase (fst x), map erase (snd x)).
+
+Lemma assemble_class_erase stmts args ps :
+  assemble_class (map erase stmts) (map erase args) (map erase ps)
+  = option_map epair (assemble_class stmts args ps).
+Proof.
+  unfold assemble_class.
+  pose proof (body_entries_erase stmts 0 []) as Hm. cbn [map] in Hm. rewrite Hm. clear Hm.
+  set (m := body_entries 0 stmts []).
+  pose proof (hm_get_erase (Id n_init) m) as Hg. cbn [erase] in Hg. rewrite Hg.
+  assert (Hold : match option_map evalue (hm_get (Id n_init) m) with Some (_, f) => Some f | None => None end
+                 = erase_opt (match hm_get (Id n_init) m with Some (_, f) => Some f | None => None end)).
+  { destruct (hm_get (Id n_init) m) as [[p f]|]; reflexivity. }
+  rewrite Hold, class_init_erase.
+  fold (init_pos (map eentry m)). fold (init_pos m). rewrite init_pos_erase.
+  set (old := match hm_get (Id n_init) m with Some (_, f) => Some f | None => None end).
+  assert (Hm' :
+    match erase_opt (class_init old args ps) with
+    | Some new_init =>
+        hm_insert (Id n_init)
+          (match option_map evalue (hm_get (Id n_init) m) with Some (p, _) => p | None => init_pos m end, new_init)
+          (map eentry m)
+    | None => map eentry m
+    end
+    = map eentry
+        (match class_init old args ps with
+         | Some new_init =>
+             hm_insert (Id n_init)
+               (match hm_get (Id n_init) m with Some (p, _) => p | None => init_pos m end, new_init) m
+         | None => m
+         end)).
+  { destruct (class_init old args ps) as [ni|]; cbn [erase_opt]; [|reflexivity].
+    pose proof (hm_insert_erase (Id n_init)
+                  (match hm_get (Id n_init) m with Some (p, _) => p | None => init_pos m end, ni) m) as Hi.
+    cbn [erase evalue fst snd] in Hi. rewrite <- Hi. f_equal. f_equal.
+    destruct (hm_get (Id n_init) m) as [[p f]|]; reflexivity. }
+  rewrite Hm'. clear Hm'.
+  set (m' := match class_init old args ps with Some _ => _ | None => m end).
+  rewrite !map_map.
+  assert (Hn : map (fun x => parent_name (erase x)) ps = map erase_opt (map parent_name ps)).
+  { rewrite map_map. apply map_ext. intros p. apply parent_name_erase. }
+  rewrite Hn.
+  rewrite existsb_none_erase. destruct (existsb _ (map parent_name ps)); [reflexivity|]. cbn [option_map]. unfold epair. cbn [fst snd].
+  f_equal. f_equal.
+  - apply flat_some_erase.
+  - assert (Hs : map (fun x => snd (eentry x)) m' = map evalue (map snd m')).
+    { rewrite map_map. apply map_ext. intros [k [p c]]. reflexivity. }
+    rewrite Hs, sort_by_pos_erase, map_map.
+    assert (Hx : map (fun x => snd (evalue x)) (sort_by_pos (map snd m')) = map erase (map snd (sort_by_pos (map snd m')))).
+    { rewrite map_map. reflexivity. }
+    rewrite Hx. destruct (map snd (sort_by_pos (map snd m'))); reflexivity.
+Qed.
